@@ -68,7 +68,7 @@ impl RegexCompile for RegexCache {
 //@@ fn rx.compile_regex = src/regex_cache.rs :: impl RegexCompile for RegexCache :: fn compile_regex
 //@@ safety C13
 //@@ rewrite str_into_string
-//@@ insert-after "cache_get_or_set_with(regex.into(), ||"
+//@@ insert-after "||"
  -> (v: Rc<Result<Regex, Error>>) ensures *v == compile_of(regex@), {
 //@@ insert-after "|| Rc::new(Regex::new(regex))"
  }
